@@ -67,7 +67,8 @@ Print Assumptions xml_leaf_text.
    tag closes the innermost open element *)
 Theorem xml_elements_well_nested : forall key pt ind,
   names_okb key pt = true ->
-  xml_tags XsText (write_el key pt ind) = Some (tag_events key pt) /  well_nested [] (tag_events key pt) = true.
+  xml_tags XsText (write_el key pt ind) = Some (tag_events key pt) /\
+  well_nested [] (tag_events key pt) = true.
 Proof. exact xml_structure_lemma. Qed.
 Print Assumptions xml_elements_well_nested.
 
